@@ -59,6 +59,13 @@ func runChild(cases []fcase) []cresult {
 	}()
 	got := map[int]cresult{}
 	outerHang := false
+	// the child's own watchdog is hangTimeout per run (per round of a scenario)
+	lineTimeout := hangTimeout + 30*time.Second
+	for _, c := range cases {
+		if c.Scenario != "" {
+			lineTimeout = (spacedRounds+2)*hangTimeout + 30*time.Second
+		}
+	}
 loop:
 	for {
 		select {
@@ -67,7 +74,7 @@ loop:
 				break loop
 			}
 			got[r.ID] = r
-		case <-time.After(hangTimeout + 30*time.Second):
+		case <-time.After(lineTimeout):
 			// the child's own watchdog did not answer: ask the runtime for a dump
 			outerHang = true
 			cmd.Process.Signal(syscall.SIGQUIT)
@@ -235,7 +242,9 @@ func violates(class, mode string) bool {
 	case class == "ok":
 		return false
 	case strings.HasPrefix(class, "run-error:"), strings.HasPrefix(class, "scan-error:"):
-		return mode == "M1"
+		// M2S = the spaced-losses history: production limit on, but the losses of
+		// a task are never 5 in a row, so there is no legitimate error either
+		return mode == "M1" || mode == "M2S"
 	}
 	return true
 }
@@ -301,6 +310,9 @@ func pointSig(f vsys.Fault, callee string, inf *progInfo) string {
 }
 
 func signature(c fcase, res cresult, inf *progInfo, class string) string {
+	if c.Scenario != "" {
+		return "C02/" + c.Prog + "/" + c.Mode + "/" + c.Scenario + "-losses/" + class
+	}
 	var pts []string
 	for i, f := range c.Faults {
 		callee := ""
@@ -332,7 +344,14 @@ func account(c fcase, res cresult, inf *progInfo, suspects *[]suspect) bool {
 		return false
 	}
 	class := classify(res, inf.expected, c.Mode)
-	if len(c.Faults) == 1 {
+	if c.Scenario != "" {
+		tl.scenarioRuns++
+		tl.scenarioRounds += res.Rounds
+		tl.scenarioKills += len(res.Killed)
+		if res.Rounds == spacedRounds && res.ArmedKills == spacedRounds {
+			tl.scenarioFull[c.Prog+"|"+c.Scenario] = true
+		}
+	} else if len(c.Faults) == 1 {
 		f := c.Faults[0]
 		victim := "callee"
 		if f.Victim != "" {
@@ -493,7 +512,8 @@ func confirm(r *ev.Run, suspects []suspect, infos map[string]*progInfo) {
 			cutAtEnd = atBatchEnd(s.c.Faults[n-1], infos[s.c.Prog])
 			ends = infos[s.c.Prog].bounds[stripOcc(s.c.Faults[n-1].Label)]
 		}
-		what := map[bool]string{true: "M1 (no consecutive-loss limit, replacement machines always available): ", false: "M2 (production setting): "}[s.c.Mode == "M1"]
+		what := map[string]string{"M1": "M1 (no consecutive-loss limit, replacement machines always available): ", "M2": "M2 (production setting): ",
+			"M2S": "spaced losses (production setting; r=Run(f), then rounds of {all machines lost while idle, Run(g,r) with one more loss of the producer task}; no task is ever lost 5 times in a row): "}[s.c.Mode]
 		switch {
 		case s.class == "hang":
 			what += "Run/scan did not return within 60 s (normal run < 1 s)"
@@ -507,7 +527,7 @@ func confirm(r *ev.Run, suspects []suspect, infos map[string]*progInfo) {
 			what += "the run did not recover although replacement machines were available and losses had stopped (" + s.class + ")"
 		}
 		r.Violate(s.sig, what, map[string]interface{}{
-			"program": s.c.Prog, "mode": s.c.Mode, "faults": s.c.Faults, "callee": s.res.Callee, "killed": s.res.Killed,
+			"program": s.c.Prog, "mode": s.c.Mode, "scenario": s.c.Scenario, "rounds_completed": s.res.Rounds, "faults": s.c.Faults, "callee": s.res.Callee, "killed": s.res.Killed,
 			"outcome": s.res.Out, "expected_rows": infos[s.c.Prog].expected, "history": s.res.History, "scan_start": s.res.ScanStart,
 			"crash": s.res.Crash, "rerun_outcomes": reruns[i].classes, "cut_at_batch_end": cutAtEnd, "batch_ends_in_reply": ends, "cases_with_this_signature": total[s.sig], "goroutine_dump": dump,
 		})
